@@ -368,7 +368,7 @@ theorem mkdirAllR_eq (fs : FS) (hw : WF fs) (hs : ∃ m, fs.get [] = some (.dir 
     · subst hp0
       obtain ⟨m, hm⟩ := hs
       have hst : statR fs [] = .found [] (.dir m) := by
-        show walk fs true maxLinks (99999 + 1) [] [] = _
+        show walk fs true maxLinks (4095 + 1) [] [] = _
         simp only [walk, hm]
       simp only [mkdirAllR, hst]
       simp [mkdirAll, mkdirFrom]
